@@ -66,6 +66,16 @@ PROPS = {
           'Non-trivial: >=2 operators and a run that produced rows or an explicitly empty result; distinct by spec+configuration.',
           nbatch=(16, 16), timeout=(900, 3400),
           must_observe=['programs_run', 'programs_with_shuffle', 'programs_on_bigmachine', 'programs_with_sharing']),
+ 'C05': P('exploration',
+          'cases = (executor, key kinds, operator in {reshard, reshuffle, reduce, fold, cogroup, repartition}, producer shards 1..5, output shards, '
+          'key set, rotation of the key list (vector offsets / producer of each key), duplication): exhaustive value range for uint8/int8/bool and '
+          'uint16/int16 keys; boundary (0, +-0.0, +-Inf, denormals, empty/long strings, integer limits) and random values for 15 key types; '
+          '2- and 3-column prefixes; shard counts {1,2,3,4,7,16,17} (quick) / 1..17 (thorough); some runs on a testsystem. A WriterFunc after the '
+          'operator records (shard,row). Oracle: equal keys (Go ==) -> one shard within a run; (operator class, type, key, nshard) -> shard is the same '
+          'in every run of the process (different producers, offsets, executors) and, by digest, in every separately started child process '
+          '(GOMAXPROCS varied per child); Repartition rows sit in the shard the function returned; aggregations emit each key once. '
+          'Non-trivial: >=2 producers and >=2 output shards received rows.',
+          nbatch=(8, 16), vary_gomaxprocs=True, must_observe=['keys_checked', 'runs_on_bigmachine', 'cross_process_values_compared']),
 }
 
 META = {
@@ -111,4 +121,9 @@ META = {
          'inputs (documented BUG), Map/Flatmap never consume prefix>1 inputs (C18 known finding), uint8 columns are left to C05. '
          'Exactly-once of callbacks is asserted only for programs without shared sub-slices (shared sub-slices are recompiled per partitioning by design).',
     technique='differential runtime monitoring against a reference evaluator, with delta-debugging of witnesses'),
+ 'C05': dict(
+    text='Exploration: real sessions redistribute enumerated and boundary key sets; placement is observed by a WriterFunc in the consumer task and '
+         'checked for functional dependence on (key, shard count) within a run, across runs and across OS processes.',
+    note='Key equality is Go == on the key columns (+0 == -0, bytes.Equal for []byte). NaN keys are excluded by the property.',
+    technique='runtime monitoring of shard placement with cross-run and cross-process consistency oracles'),
 }
